@@ -468,7 +468,7 @@ func (l *c01Log) submit(chain, path []*vCert, pre bool, now time.Time, what stri
 
 	// ---- trace line for the model
 	var sb strings.Builder
-	fmt.Fprintf(&sb, "ac %s %d %s %d", verifkit.Hex(l.spki), nowMs, verifkit.B(pre), len(path))
+	fmt.Fprintf(&sb, "ac %s %T %d %s %d", verifkit.Hex(l.spki), l.signer.Public(), now.UnixNano(), verifkit.B(pre), len(path))
 	for i, c := range path {
 		fmt.Fprintf(&sb, " %s %s %s %s", verifkit.Hex(c.der), verifkit.Hex(std[i].spki), verifkit.Hex(std[i].tbs), verifkit.B(std[i].preIssuer))
 	}
@@ -498,8 +498,12 @@ func (l *c01Log) submit(chain, path []*vCert, pre bool, now time.Time, what stri
 			out.Fail(key, "200 without a QueueLeaf request")
 			return
 		}
-		ans = fmt.Sprintf("200 %s %s %s %d %s %d %s %s", verifkit.Hex(q.LeafValue), verifkit.Hex(q.ExtraData), verifkit.Hex(q.LeafIdentityHash),
-			rsp.Version, verifkit.Hex(id), rsp.Timestamp, verifkit.Hex(ext), verifkit.Hex(digest))
+		ha, sa := -1, -1
+		if len(ds) >= 2 {
+			ha, sa = int(ds[0]), int(ds[1])
+		}
+		ans = fmt.Sprintf("200 %s %s %s %d %s %d %s %d %d %s", verifkit.Hex(q.LeafValue), verifkit.Hex(q.ExtraData), verifkit.Hex(q.LeafIdentityHash),
+			rsp.Version, verifkit.Hex(id), rsp.Timestamp, verifkit.Hex(ext), ha, sa, verifkit.Hex(digest))
 	}
 	out.T(sb.String(), ans)
 
@@ -529,11 +533,15 @@ func (l *c01Log) submit(chain, path []*vCert, pre bool, now time.Time, what stri
 	input := c01Leaf(rsp.Timestamp, entry, ext)
 	lk := string(path[0].der)
 	if fe, dup := l.firstE[lk]; dup && !bytes.Equal(fe, entry.signedEntry()) {
-		// The same leaf certificate was logged before through a different issuer (a Precertificate Signing
-		// Certificate certified by two CAs): de-duplication is by the leaf certificate alone, so the log repeats
-		// the first entry's SCT.  The property's de-duplication clause prescribes exactly that; counted, not failed
-		// (hypothesis `Consistent` of C01.sct_binds).  The SCT must then be the first entry's.
-		out.Count("obs:duplicate-leaf-different-issuer")
+		// The same leaf certificate was logged before through a different issuer route (a Precertificate Signing
+		// Certificate certified by two CAs).  De-duplication is by the leaf certificate alone, so the log repeats the
+		// first entry's SCT — which does NOT verify over the entry an RFC 6962 client derives from THIS chain: the
+		// property's first sentence fails (known finding; FULL of C01.sct_binds_partial, counter-example exTwoRoutes).
+		if why := c01VerifySig(l.signer.Public(), input, ds); why != "" {
+			out.Fail("two-route precert: "+key, "the SCT does not verify over the entry derived from the submitted chain (it is the SCT of the first route's entry): "+why)
+		}
+		out.Count("class:duplicate-leaf-different-issuer")
+		// what must still hold: it is exactly the first entry's SCT
 		e1 := entry
 		if entry.precert {
 			e1.issuerKeyHash, e1.tbs = fe[:32], fe[35:]
@@ -738,6 +746,19 @@ func TestVerifC01(t *testing.T) {
 					out.Count("mode:non-canonical-issuer-spki")
 				}
 			}
+		}
+		// the submitted certificate is itself in the trusted pool: validated path of length 1, empty issuance chain; the
+		// extra data is then the empty certificate_chain `000000` (add-chain).  A trusted self-issued precertificate
+		// has no issuer in its path: no entry can be derived (add-pre-chain answers 400).
+		{
+			lg.submit([]*vCert{w.roots[0]}, []*vCert{w.roots[0]}, false, c01Clocks[(wi+1)%len(c01Clocks)], "a trusted root submitted as the leaf")
+			sp := vIssue(vSpec{cn: fmt.Sprintf("c01w%d trusted self-issued precert", wi), key: keys[r.Intn(len(keys))], isCA: true, keyUsage: vCAUsage, poison: vPoisonOK})
+			lg.li.validationOpts.trustedRoots.AddCert(sp.c)
+			lg.submit([]*vCert{sp}, []*vCert{sp}, true, c01Clocks[3], "a trusted self-issued precertificate submitted alone")
+			ti := vIssue(vSpec{cn: fmt.Sprintf("c01w%d trusted intermediate", wi), key: keys[r.Intn(len(keys))], issuer: w.roots[0], isCA: true, keyUsage: vCAUsage})
+			lg.li.validationOpts.trustedRoots.AddCert(ti.c)
+			lg.submit([]*vCert{ti}, []*vCert{ti}, false, c01Clocks[4], "a trusted intermediate submitted as the leaf")
+			out.Count("mode:path-of-length-1")
 		}
 		// a Precertificate Signing Certificate that is itself a trust anchor: no final issuer in the path, no entry
 		{
